@@ -1,11 +1,32 @@
 package engine
 
 import (
+	"fmt"
 	"go/types"
 )
 
-// Executor-level model of package reflect. A reflect.Type is Iface{T: *reflect.rtype, V: Native{types.Type}};
-// methods of *reflect.rtype are intrinsics over go/types.
+// Executor-level model of package reflect (the subset net/edf and friends use).
+//
+//	reflect.Type  = Iface{T: *reflect.rtype, V: Native{rtypeBox{types.Type}}}
+//	reflect.Value = Struct{Native{*rval}, nil, 0}   (zero Value: Struct{nil, nil, 0})
+//
+// Methods of *reflect.rtype and reflect.Value are intrinsics over go/types and executor values.
+
+type rtypeBox struct{ t types.Type }
+
+type rval struct {
+	t      types.Type
+	val    Value // when !isAddr
+	addr   Ptr   // when isAddr: the slot holding the value
+	isAddr bool
+}
+
+func (r *rval) get() Value {
+	if r.isAddr {
+		return copyVal(*r.addr)
+	}
+	return r.val
+}
 
 func (x *Exec) rtypePtr() types.Type {
 	if x.rtypeT != nil {
@@ -26,10 +47,10 @@ func (x *Exec) mkRType(t types.Type) Value {
 	return Iface{T: x.rtypePtr(), V: Native{X: rtypeBox{t}}}
 }
 
-// rtypeBox makes types.Type comparable by identity of the canonical type string.
-type rtypeBox struct{ t types.Type }
-
 func typeOfArg(v Value) types.Type {
+	if i, ok := v.(Iface); ok {
+		v = i.V
+	}
 	n, ok := v.(Native)
 	if !ok {
 		return nil
@@ -45,21 +66,158 @@ func reflectTypeString(t types.Type) string {
 	return types.TypeString(t, func(p *types.Package) string { return p.Name() })
 }
 
+func (x *Exec) mkRValue(r *rval) Value {
+	return Struct{Native{X: r}, Ptr(nil), x.ts.BV(1, 64)}
+}
+
+func (x *Exec) rvOf(v Value, what string) *rval {
+	st, ok := v.(Struct)
+	if ok && len(st) == 3 {
+		if n, ok := st[0].(Native); ok {
+			if r, ok := n.X.(*rval); ok {
+				return r
+			}
+		}
+	}
+	x.targetPanicStr("reflect: call of reflect.Value." + what + " on zero Value")
+	return nil
+}
+
+func reflectKind(t types.Type) uint64 {
+	switch u := t.Underlying().(type) {
+	case *types.Basic:
+		switch u.Kind() {
+		case types.Bool:
+			return 1
+		case types.Int:
+			return 2
+		case types.Int8:
+			return 3
+		case types.Int16:
+			return 4
+		case types.Int32:
+			return 5
+		case types.Int64:
+			return 6
+		case types.Uint:
+			return 7
+		case types.Uint8:
+			return 8
+		case types.Uint16:
+			return 9
+		case types.Uint32:
+			return 10
+		case types.Uint64:
+			return 11
+		case types.Uintptr:
+			return 12
+		case types.Float32:
+			return 13
+		case types.Float64:
+			return 14
+		case types.Complex64:
+			return 15
+		case types.Complex128:
+			return 16
+		case types.String:
+			return 24
+		case types.UnsafePointer:
+			return 26
+		}
+	case *types.Array:
+		return 17
+	case *types.Chan:
+		return 18
+	case *types.Signature:
+		return 19
+	case *types.Interface:
+		return 20
+	case *types.Map:
+		return 21
+	case *types.Pointer:
+		return 22
+	case *types.Slice:
+		return 23
+	case *types.Struct:
+		return 25
+	}
+	return 0
+}
+
+// f32 <-> f64 for symbolic bit patterns: float64(f32) of a symbolic float32 is carried as a tagged
+// 64-bit term so that converting back yields the original bits (no arithmetic is ever done on it).
+const f32Tag = 0x7ff4f32f
+
+func (x *Exec) f32to64(t *Term) *Term {
+	if t.IsConst() {
+		return x.floatConst(64, x.floatVal(t))
+	}
+	return x.ts.Concat(x.ts.BV(f32Tag, 32), t)
+}
+
+func (x *Exec) f64to32(t *Term) *Term {
+	if t.IsConst() {
+		return x.floatConst(32, x.floatVal(t))
+	}
+	if t.Op == OpConcat && t.Args[0].IsConst() && t.Args[0].C == f32Tag {
+		return t.Args[1]
+	}
+	x.unsupported("symbolic float64 -> float32")
+	return nil
+}
+
+// assign converts v (of type from) for storage into a location of type to.
+func (x *Exec) reflectAssign(to, from types.Type, v Value) Value {
+	if _, isI := to.Underlying().(*types.Interface); isI {
+		if _, fromI := from.Underlying().(*types.Interface); !fromI {
+			return Iface{T: from, V: copyVal(v)}
+		}
+	}
+	return copyVal(v)
+}
+
+func (x *Exec) structFieldValue(st *types.Struct, i int) Value {
+	f := st.Field(i)
+	pkg := ""
+	if !f.Exported() && f.Pkg() != nil {
+		pkg = f.Pkg().Path()
+	}
+	idx := []Value{x.ts.BV(uint64(i), 64)}
+	return Struct{
+		x.mkStr(f.Name()),                 // Name
+		x.mkStr(pkg),                      // PkgPath
+		x.mkRType(f.Type()),               // Type
+		x.mkStr(st.Tag(i)),                // Tag
+		x.ts.BV(0, 64),                    // Offset
+		Slice{S: idx},                     // Index
+		x.ts.Bool(f.Embedded()),           // Anonymous
+	}
+}
+
+type rmapIter struct {
+	m    *Map
+	ents []*mapEnt
+	i    int
+	kt   types.Type
+	vt   types.Type
+}
+
 func init() {
 	reg := func(name string, f intrinsic) { intrinsics[name] = f }
+
+	// ---- types ---------------------------------------------------------------------------
 	reg("reflect.TypeOf", func(fr *frame, args []Value) Value {
-		i := args[0].(Iface)
-		return fr.x.mkRType(i.T)
+		return fr.x.mkRType(args[0].(Iface).T)
 	})
 	reg("(*reflect.rtype).String", func(fr *frame, args []Value) Value {
 		return fr.x.mkStr(reflectTypeString(typeOfArg(args[0])))
 	})
 	reg("(*reflect.rtype).Name", func(fr *frame, args []Value) Value {
-		if n, ok := typeOfArg(args[0]).(*types.Named); ok {
+		switch n := typeOfArg(args[0]).(type) {
+		case *types.Named:
 			return fr.x.mkStr(n.Obj().Name())
-		}
-		if b, ok := typeOfArg(args[0]).(*types.Basic); ok {
-			return fr.x.mkStr(b.Name())
+		case *types.Basic:
+			return fr.x.mkStr(n.Name())
 		}
 		return fr.x.mkStr("")
 	})
@@ -69,4 +227,529 @@ func init() {
 		}
 		return fr.x.mkStr("")
 	})
+	reg("(*reflect.rtype).Kind", func(fr *frame, args []Value) Value {
+		return fr.x.ts.BV(reflectKind(typeOfArg(args[0])), 64)
+	})
+	reg("(*reflect.rtype).Elem", func(fr *frame, args []Value) Value {
+		x := fr.x
+		switch u := typeOfArg(args[0]).Underlying().(type) {
+		case *types.Pointer:
+			return x.mkRType(u.Elem())
+		case *types.Slice:
+			return x.mkRType(u.Elem())
+		case *types.Array:
+			return x.mkRType(u.Elem())
+		case *types.Map:
+			return x.mkRType(u.Elem())
+		case *types.Chan:
+			return x.mkRType(u.Elem())
+		}
+		x.targetPanicStr("reflect: Elem of invalid type " + typeOfArg(args[0]).String())
+		return nil
+	})
+	reg("(*reflect.rtype).Key", func(fr *frame, args []Value) Value {
+		if m, ok := typeOfArg(args[0]).Underlying().(*types.Map); ok {
+			return fr.x.mkRType(m.Key())
+		}
+		fr.x.targetPanicStr("reflect: Key of non-map type")
+		return nil
+	})
+	reg("(*reflect.rtype).Len", func(fr *frame, args []Value) Value {
+		if a, ok := typeOfArg(args[0]).Underlying().(*types.Array); ok {
+			return fr.x.ts.BV(uint64(a.Len()), 64)
+		}
+		fr.x.targetPanicStr("reflect: Len of non-array type")
+		return nil
+	})
+	reg("(*reflect.rtype).NumField", func(fr *frame, args []Value) Value {
+		if s, ok := typeOfArg(args[0]).Underlying().(*types.Struct); ok {
+			return fr.x.ts.BV(uint64(s.NumFields()), 64)
+		}
+		fr.x.targetPanicStr("reflect: NumField of non-struct type")
+		return nil
+	})
+	reg("(*reflect.rtype).Field", func(fr *frame, args []Value) Value {
+		x := fr.x
+		s, ok := typeOfArg(args[0]).Underlying().(*types.Struct)
+		if !ok {
+			x.targetPanicStr("reflect: Field of non-struct type")
+		}
+		i := x.concreteInt(args[1].(*Term), "Field index")
+		if i < 0 || int(i) >= s.NumFields() {
+			x.targetPanicStr("reflect: Field index out of bounds")
+		}
+		return x.structFieldValue(s, int(i))
+	})
+	reg("(*reflect.rtype).Implements", func(fr *frame, args []Value) Value {
+		x := fr.x
+		u := typeOfArg(args[1])
+		if u == nil {
+			x.targetPanicStr("reflect: nil type passed to Type.Implements")
+		}
+		it, ok := u.Underlying().(*types.Interface)
+		if !ok {
+			x.targetPanicStr("reflect: non-interface type passed to Type.Implements")
+		}
+		return x.ts.Bool(x.implements(typeOfArg(args[0]), it))
+	})
+	reg("(*reflect.rtype).Comparable", func(fr *frame, args []Value) Value {
+		return fr.x.ts.Bool(types.Comparable(typeOfArg(args[0])))
+	})
+	reg("(*reflect.rtype).Size", func(fr *frame, args []Value) Value {
+		return fr.x.ts.BV(uint64(types.SizesFor("gc", "amd64").Sizeof(typeOfArg(args[0]))), 64)
+	})
+	reg("reflect.PointerTo", func(fr *frame, args []Value) Value {
+		return fr.x.mkRType(types.NewPointer(typeOfArg(args[0])))
+	})
+	reg("reflect.PtrTo", intrinsics["reflect.PointerTo"])
+	reg("reflect.SliceOf", func(fr *frame, args []Value) Value {
+		return fr.x.mkRType(types.NewSlice(typeOfArg(args[0])))
+	})
+	reg("reflect.MapOf", func(fr *frame, args []Value) Value {
+		return fr.x.mkRType(types.NewMap(typeOfArg(args[0]), typeOfArg(args[1])))
+	})
+	reg("reflect.ArrayOf", func(fr *frame, args []Value) Value {
+		x := fr.x
+		n := x.concreteInt(args[0].(*Term), "ArrayOf length")
+		if n < 0 {
+			x.targetPanicStr("reflect: negative length passed to ArrayOf")
+		}
+		return x.mkRType(types.NewArray(typeOfArg(args[1]), n))
+	})
+
+	// ---- values --------------------------------------------------------------------------
+	reg("reflect.ValueOf", func(fr *frame, args []Value) Value {
+		x := fr.x
+		i := args[0].(Iface)
+		if i.T == nil {
+			return x.zero(x.valueType())
+		}
+		return x.mkRValue(&rval{t: i.T, val: i.V})
+	})
+	reg("reflect.New", func(fr *frame, args []Value) Value {
+		x := fr.x
+		t := typeOfArg(args[0])
+		if a, ok := t.Underlying().(*types.Array); ok {
+			x.noteAlloc(a.Len())
+			if a.Len() > 1<<20 {
+				x.unsupported(fmt.Sprintf("reflect.New of an array of %d elements", a.Len()))
+			}
+		}
+		v := x.zero(t)
+		return x.mkRValue(&rval{t: types.NewPointer(t), val: Ptr(&v)})
+	})
+	reg("reflect.Zero", func(fr *frame, args []Value) Value {
+		x := fr.x
+		t := typeOfArg(args[0])
+		return x.mkRValue(&rval{t: t, val: x.zero(t)})
+	})
+	reg("reflect.Indirect", func(fr *frame, args []Value) Value {
+		x := fr.x
+		r := x.rvOf(args[0], "Indirect")
+		if p, ok := r.t.Underlying().(*types.Pointer); ok {
+			ptr := r.get().(Ptr)
+			if ptr == nil {
+				return x.zero(x.valueType())
+			}
+			return x.mkRValue(&rval{t: p.Elem(), addr: ptr, isAddr: true})
+		}
+		return args[0]
+	})
+	reg("reflect.MakeSlice", func(fr *frame, args []Value) Value {
+		x := fr.x
+		t := typeOfArg(args[0])
+		ln := x.concreteInt(args[1].(*Term), "MakeSlice len")
+		cp := x.concreteInt(args[2].(*Term), "MakeSlice cap")
+		if ln < 0 || cp < ln {
+			x.targetPanicStr("reflect.MakeSlice: len/cap out of range")
+		}
+		x.noteAlloc(cp)
+		if cp > 1<<20 {
+			x.unsupported(fmt.Sprintf("reflect.MakeSlice of %d elements", cp))
+		}
+		el := t.Underlying().(*types.Slice).Elem()
+		return x.mkRValue(&rval{t: t, val: Slice{S: x.makeBacking(el, int(cp))[:ln]}})
+	})
+	mkMap := func(fr *frame, args []Value) Value {
+		x := fr.x
+		t := typeOfArg(args[0])
+		mt := t.Underlying().(*types.Map)
+		if len(args) > 1 {
+			n := x.concreteInt(args[1].(*Term), "MakeMapWithSize")
+			x.noteAlloc(n)
+		}
+		x.mapSeq++
+		return x.mkRValue(&rval{t: t, val: &Map{kt: mt.Key(), vt: mt.Elem(), id: x.mapSeq}})
+	}
+	reg("reflect.MakeMap", mkMap)
+	reg("reflect.MakeMapWithSize", mkMap)
+
+	reg("(reflect.Value).Type", func(fr *frame, args []Value) Value {
+		return fr.x.mkRType(fr.x.rvOf(args[0], "Type").t)
+	})
+	reg("(reflect.Value).Kind", func(fr *frame, args []Value) Value {
+		x := fr.x
+		st, ok := args[0].(Struct)
+		if ok {
+			if _, isN := st[0].(Native); !isN {
+				return x.ts.BV(0, 64)
+			}
+		}
+		return x.ts.BV(reflectKind(x.rvOf(args[0], "Kind").t), 64)
+	})
+	reg("(reflect.Value).IsValid", func(fr *frame, args []Value) Value {
+		st := args[0].(Struct)
+		_, isN := st[0].(Native)
+		return fr.x.ts.Bool(isN)
+	})
+	reg("(reflect.Value).CanSet", func(fr *frame, args []Value) Value {
+		return fr.x.ts.Bool(fr.x.rvOf(args[0], "CanSet").isAddr)
+	})
+	reg("(reflect.Value).CanAddr", func(fr *frame, args []Value) Value {
+		return fr.x.ts.Bool(fr.x.rvOf(args[0], "CanAddr").isAddr)
+	})
+	reg("(reflect.Value).Interface", func(fr *frame, args []Value) Value {
+		x := fr.x
+		r := x.rvOf(args[0], "Interface")
+		if _, isI := r.t.Underlying().(*types.Interface); isI {
+			return r.get()
+		}
+		return Iface{T: r.t, V: r.get()}
+	})
+	reg("(reflect.Value).Elem", func(fr *frame, args []Value) Value {
+		x := fr.x
+		r := x.rvOf(args[0], "Elem")
+		switch u := r.t.Underlying().(type) {
+		case *types.Pointer:
+			ptr := r.get().(Ptr)
+			if ptr == nil {
+				return x.zero(x.valueType())
+			}
+			return x.mkRValue(&rval{t: u.Elem(), addr: ptr, isAddr: true})
+		case *types.Interface:
+			i := r.get().(Iface)
+			if i.T == nil {
+				return x.zero(x.valueType())
+			}
+			return x.mkRValue(&rval{t: i.T, val: i.V})
+		}
+		x.targetPanicStr("reflect: call of reflect.Value.Elem on " + r.t.String() + " Value")
+		return nil
+	})
+	reg("(reflect.Value).Addr", func(fr *frame, args []Value) Value {
+		x := fr.x
+		r := x.rvOf(args[0], "Addr")
+		if !r.isAddr {
+			x.targetPanicStr("reflect.Value.Addr of unaddressable value")
+		}
+		return x.mkRValue(&rval{t: types.NewPointer(r.t), val: r.addr})
+	})
+	reg("(reflect.Value).IsNil", func(fr *frame, args []Value) Value {
+		x := fr.x
+		r := x.rvOf(args[0], "IsNil")
+		switch v := r.get().(type) {
+		case Ptr:
+			return x.ts.Bool(v == nil)
+		case Slice:
+			return x.ts.Bool(v.Nil)
+		case *Map:
+			return x.ts.Bool(v == nil)
+		case *Chan:
+			return x.ts.Bool(v == nil)
+		case Iface:
+			return x.ts.Bool(v.T == nil)
+		default:
+			if isNilFunc(v) {
+				return x.ts.T
+			}
+			if _, ok := r.t.Underlying().(*types.Signature); ok {
+				return x.ts.F
+			}
+		}
+		x.targetPanicStr("reflect: call of reflect.Value.IsNil on " + r.t.String() + " Value")
+		return nil
+	})
+	reg("(reflect.Value).IsZero", func(fr *frame, args []Value) Value {
+		x := fr.x
+		r := x.rvOf(args[0], "IsZero")
+		return x.equal(r.t, r.get(), x.zero(r.t))
+	})
+	reg("(reflect.Value).Int", func(fr *frame, args []Value) Value {
+		x := fr.x
+		r := x.rvOf(args[0], "Int")
+		return x.ts.SExt(r.get().(*Term), 64)
+	})
+	reg("(reflect.Value).Uint", func(fr *frame, args []Value) Value {
+		x := fr.x
+		r := x.rvOf(args[0], "Uint")
+		return x.ts.ZExt(r.get().(*Term), 64)
+	})
+	reg("(reflect.Value).Bool", func(fr *frame, args []Value) Value {
+		return fr.x.rvOf(args[0], "Bool").get()
+	})
+	reg("(reflect.Value).String", func(fr *frame, args []Value) Value {
+		x := fr.x
+		r := x.rvOf(args[0], "String")
+		if s, ok := r.get().(Str); ok {
+			return s
+		}
+		return x.mkStr("<" + reflectTypeString(r.t) + " Value>")
+	})
+	reg("(reflect.Value).Float", func(fr *frame, args []Value) Value {
+		x := fr.x
+		r := x.rvOf(args[0], "Float")
+		t := r.get().(*Term)
+		if t.W == 32 {
+			return x.f32to64(t)
+		}
+		return t
+	})
+	reg("(reflect.Value).Bytes", func(fr *frame, args []Value) Value {
+		x := fr.x
+		r := x.rvOf(args[0], "Bytes")
+		switch v := r.get().(type) {
+		case Slice:
+			return v
+		case Array:
+			if r.isAddr {
+				return Slice{S: (*r.addr).(Array)}
+			}
+			return Slice{S: v}
+		}
+		x.targetPanicStr("reflect.Value.Bytes of non-byte slice")
+		return nil
+	})
+	reg("(reflect.Value).Len", func(fr *frame, args []Value) Value {
+		x := fr.x
+		r := x.rvOf(args[0], "Len")
+		switch v := r.get().(type) {
+		case Slice:
+			return x.ts.BV(uint64(len(v.S)), 64)
+		case Array:
+			return x.ts.BV(uint64(len(v)), 64)
+		case Str:
+			return x.ts.BV(uint64(v.Len()), 64)
+		case *Map:
+			if v == nil {
+				return x.ts.BV(0, 64)
+			}
+			return x.ts.BV(uint64(len(v.ents)), 64)
+		case *Chan:
+			if v == nil {
+				return x.ts.BV(0, 64)
+			}
+			return x.ts.BV(uint64(len(v.buf)), 64)
+		}
+		x.targetPanicStr("reflect: call of reflect.Value.Len on " + r.t.String() + " Value")
+		return nil
+	})
+	reg("(reflect.Value).Cap", func(fr *frame, args []Value) Value {
+		x := fr.x
+		r := x.rvOf(args[0], "Cap")
+		switch v := r.get().(type) {
+		case Slice:
+			return x.ts.BV(uint64(cap(v.S)), 64)
+		case Array:
+			return x.ts.BV(uint64(len(v)), 64)
+		}
+		x.targetPanicStr("reflect: call of reflect.Value.Cap on " + r.t.String() + " Value")
+		return nil
+	})
+	reg("(reflect.Value).NumField", func(fr *frame, args []Value) Value {
+		x := fr.x
+		r := x.rvOf(args[0], "NumField")
+		s, ok := r.t.Underlying().(*types.Struct)
+		if !ok {
+			x.targetPanicStr("reflect: call of reflect.Value.NumField on non-struct Value")
+		}
+		return x.ts.BV(uint64(s.NumFields()), 64)
+	})
+	reg("(reflect.Value).Field", func(fr *frame, args []Value) Value {
+		x := fr.x
+		r := x.rvOf(args[0], "Field")
+		s, ok := r.t.Underlying().(*types.Struct)
+		if !ok {
+			x.targetPanicStr("reflect: call of reflect.Value.Field on non-struct Value")
+		}
+		i := x.concreteInt(args[1].(*Term), "Field index")
+		if i < 0 || int(i) >= s.NumFields() {
+			x.targetPanicStr("reflect: Field index out of range")
+		}
+		ft := s.Field(int(i)).Type()
+		if r.isAddr {
+			return x.mkRValue(&rval{t: ft, addr: &(*r.addr).(Struct)[i], isAddr: true})
+		}
+		return x.mkRValue(&rval{t: ft, val: r.val.(Struct)[i]})
+	})
+	reg("(reflect.Value).Index", func(fr *frame, args []Value) Value {
+		x := fr.x
+		r := x.rvOf(args[0], "Index")
+		i := x.concreteInt(args[1].(*Term), "Index")
+		switch u := r.t.Underlying().(type) {
+		case *types.Slice:
+			s := r.get().(Slice)
+			if i < 0 || int(i) >= len(s.S) {
+				x.targetPanicStr("reflect: slice index out of range")
+			}
+			return x.mkRValue(&rval{t: u.Elem(), addr: &s.S[i], isAddr: true})
+		case *types.Array:
+			if r.isAddr {
+				a := (*r.addr).(Array)
+				if i < 0 || int(i) >= len(a) {
+					x.targetPanicStr("reflect: array index out of range")
+				}
+				return x.mkRValue(&rval{t: u.Elem(), addr: &a[i], isAddr: true})
+			}
+			a := r.val.(Array)
+			if i < 0 || int(i) >= len(a) {
+				x.targetPanicStr("reflect: array index out of range")
+			}
+			return x.mkRValue(&rval{t: u.Elem(), val: a[i]})
+		case *types.Basic:
+			s := r.get().(Str)
+			if i < 0 || int(i) >= s.Len() {
+				x.targetPanicStr("reflect: string index out of range")
+			}
+			return x.mkRValue(&rval{t: types.Typ[types.Uint8], val: x.strBytes(s)[i]})
+		}
+		x.targetPanicStr("reflect: call of reflect.Value.Index on " + r.t.String() + " Value")
+		return nil
+	})
+	reg("(reflect.Value).Set", func(fr *frame, args []Value) Value {
+		x := fr.x
+		r := x.rvOf(args[0], "Set")
+		if !r.isAddr {
+			x.targetPanicStr("reflect: reflect.Value.Set using unaddressable value")
+		}
+		src := x.rvOf(args[1], "Set")
+		if !types.AssignableTo(src.t, r.t) {
+			x.targetPanicStr("reflect.Set: value of type " + src.t.String() + " is not assignable to type " + r.t.String())
+		}
+		x.store(r.addr, x.reflectAssign(r.t, src.t, src.get()))
+		return nil
+	})
+	setScalar := func(name string) {
+		reg("(reflect.Value)."+name, func(fr *frame, args []Value) Value {
+			x := fr.x
+			r := x.rvOf(args[0], name)
+			if !r.isAddr {
+				x.targetPanicStr("reflect: reflect.Value." + name + " using unaddressable value")
+			}
+			w := x.widthOf(r.t)
+			switch v := args[1].(type) {
+			case *Term:
+				if name == "SetFloat" {
+					if w == 32 {
+						x.store(r.addr, x.f64to32(v))
+					} else {
+						x.store(r.addr, v)
+					}
+				} else if w == 0 {
+					x.store(r.addr, v)
+				} else if w > 0 {
+					x.store(r.addr, x.ts.Extract(v, w-1, 0))
+				} else {
+					x.targetPanicStr("reflect: " + name + " on " + r.t.String())
+				}
+			default:
+				x.store(r.addr, copyVal(v))
+			}
+			return nil
+		})
+	}
+	for _, n := range []string{"SetInt", "SetUint", "SetBool", "SetFloat", "SetString", "SetBytes"} {
+		setScalar(n)
+	}
+	reg("(reflect.Value).SetLen", func(fr *frame, args []Value) Value {
+		x := fr.x
+		r := x.rvOf(args[0], "SetLen")
+		s := (*r.addr).(Slice)
+		n := x.concreteInt(args[1].(*Term), "SetLen")
+		if n < 0 || int(n) > cap(s.S) {
+			x.targetPanicStr("reflect: slice length out of range in SetLen")
+		}
+		x.store(r.addr, Slice{S: s.S[:n]})
+		return nil
+	})
+	reg("(reflect.Value).MapIndex", func(fr *frame, args []Value) Value {
+		x := fr.x
+		r := x.rvOf(args[0], "MapIndex")
+		m := r.get().(*Map)
+		k := x.rvOf(args[1], "MapIndex")
+		mt := r.t.Underlying().(*types.Map)
+		if i := x.mapFind(m, x.reflectAssign(mt.Key(), k.t, k.get())); i >= 0 {
+			return x.mkRValue(&rval{t: mt.Elem(), val: copyVal(m.ents[i].v)})
+		}
+		return x.zero(x.valueType())
+	})
+	reg("(reflect.Value).SetMapIndex", func(fr *frame, args []Value) Value {
+		x := fr.x
+		r := x.rvOf(args[0], "SetMapIndex")
+		m := r.get().(*Map)
+		if m == nil {
+			x.targetPanicStr("assignment to entry in nil map")
+		}
+		mt := r.t.Underlying().(*types.Map)
+		k := x.rvOf(args[1], "SetMapIndex")
+		key := x.reflectAssign(mt.Key(), k.t, k.get())
+		if st, ok := args[2].(Struct); ok {
+			if _, valid := st[0].(Native); !valid {
+				x.mapDelete(m, key)
+				return nil
+			}
+		}
+		v := x.rvOf(args[2], "SetMapIndex")
+		x.mapSet(m, key, x.reflectAssign(mt.Elem(), v.t, v.get()))
+		return nil
+	})
+	reg("(reflect.Value).MapRange", func(fr *frame, args []Value) Value {
+		x := fr.x
+		r := x.rvOf(args[0], "MapRange")
+		m := r.get().(*Map)
+		mt := r.t.Underlying().(*types.Map)
+		it := &rmapIter{m: m, kt: mt.Key(), vt: mt.Elem(), i: -1}
+		if m != nil {
+			it.ents = m.ents
+		}
+		var v Value = Native{X: it}
+		return Ptr(&v)
+	})
+	iterOf := func(x *Exec, v Value) *rmapIter {
+		p := v.(Ptr)
+		return (*p).(Native).X.(*rmapIter)
+	}
+	reg("(*reflect.MapIter).Next", func(fr *frame, args []Value) Value {
+		it := iterOf(fr.x, args[0])
+		it.i++
+		return fr.x.ts.Bool(it.i < len(it.ents))
+	})
+	reg("(*reflect.MapIter).Key", func(fr *frame, args []Value) Value {
+		it := iterOf(fr.x, args[0])
+		return fr.x.mkRValue(&rval{t: it.kt, val: copyVal(it.ents[it.i].k)})
+	})
+	reg("(*reflect.MapIter).Value", func(fr *frame, args []Value) Value {
+		it := iterOf(fr.x, args[0])
+		return fr.x.mkRValue(&rval{t: it.vt, val: copyVal(it.ents[it.i].v)})
+	})
+	reg("(reflect.Value).Convert", func(fr *frame, args []Value) Value {
+		x := fr.x
+		r := x.rvOf(args[0], "Convert")
+		t := typeOfArg(args[1])
+		return x.mkRValue(&rval{t: t, val: x.conv(t, r.t, r.get())})
+	})
+	reg("reflect.Append", func(fr *frame, args []Value) Value {
+		x := fr.x
+		r := x.rvOf(args[0], "Append")
+		s := r.get().(Slice)
+		out := append([]Value{}, s.S...)
+		for _, a := range args[1].(Slice).S {
+			e := x.rvOf(a, "Append")
+			out = append(out, x.reflectAssign(r.t.Underlying().(*types.Slice).Elem(), e.t, e.get()))
+		}
+		return x.mkRValue(&rval{t: r.t, val: Slice{S: out}})
+	})
+}
+
+func (x *Exec) valueType() types.Type {
+	return x.prog.ImportedPackage("reflect").Type("Value").Object().Type()
 }
